@@ -1,14 +1,15 @@
 """Which units (and extra engines) serve which property, plus MANIFEST metadata."""
-UNITS = ['u_list', 'u_jobs', 'u_tok', 'u_plan', 'u_exp1', 'u_calc', 'u_exp2', 'u_wait', 'u_fd', 'u_env', 'u_args', 'u_proc']
+UNITS = ['u_list', 'u_jobs', 'u_tok', 'u_plan', 'u_exp1', 'u_calc', 'u_exp2', 'u_wait', 'u_fd', 'u_env', 'u_args', 'u_proc', 'u_exp3']
 
 PROPERTY_UNITS = {
     'C03': ['u_list'],
     'C06': ['u_jobs', 'u_wait'],
-    'C05': ['u_list', 'u_jobs', 'u_tok', 'u_plan', 'u_exp1', 'u_calc', 'u_exp2', 'u_wait', 'u_fd', 'u_env', 'u_args', 'u_proc'],
-    'C01': ['u_plan', 'u_exp1', 'u_exp2'],
-    'C13': ['u_plan', 'u_exp1', 'u_exp2'],
+    'C05': ['u_list', 'u_jobs', 'u_tok', 'u_plan', 'u_exp1', 'u_calc', 'u_exp2', 'u_wait', 'u_fd', 'u_env', 'u_args', 'u_proc', 'u_exp3'],
+    'C01': ['u_plan', 'u_exp1', 'u_exp2', 'u_exp3'],
+    'C13': ['u_plan', 'u_exp1', 'u_exp2', 'u_exp3'],
     'C12': ['u_exp1', 'u_exp2'],
     'C10': ['u_exp2'],
+    'C11': ['u_exp3'],
     'C07': ['u_fd', 'u_proc', 'u_plan', 'u_jobs', 'u_wait'],
     'C15': ['u_args'],
     'C09': ['u_env', 'u_exp2', 'u_proc'],
@@ -145,6 +146,14 @@ META['C07'] = {
             'layer and tcsetpgrp success assumed; fg/bg builtins not under contract.',
 }
 
+META['C11'] = {
+    'text': 'Partial. Verus proves for both substitution passes that only words that are not single-quoted / escaped and that contain a substitution may change, that tags and the '
+            'number of tokens never change, that the index bookkeeping stays in step on every path (error paths included), that an inner command is run at most once per planning, '
+            'and termination of the rewrite loops (the $(..) loop under the stated assumption that one replace removes one substitution).',
+    'note': 'NOT covered: that the replacement is the command\'s stdout, trailing-newline trimming, literal splicing (Regex::replace interprets $1/${x} in the output; the '
+            'inserted text is scanned again): these are regex/kernel behaviours left uninterpreted; inner from_line / run_pipeline are external.',
+}
+
 _PENDING = 'not yet brought under contract in this revision of /verif (work in progress; see DESIGN.md)'
 NOT_APPLICABLE = {
     'C14': 'parse tree comes from a macro-generated pest parser and the external, lifetime-parameterised pest::iterators::Pair type; no contract within reach',
@@ -152,5 +161,5 @@ NOT_APPLICABLE = {
     'C18': 'semantics live in SQLite\'s SQL parser (bundled C library); SQL is built with format!, outside Verus',
     'C20': 'needs the lineread completer protocol, a populated filesystem and the escaped-word round trip (a recorded C01 violation)',
 }
-for _p in ['C11']:
+for _p in []:
     NOT_APPLICABLE.setdefault(_p, _PENDING)
